@@ -7,6 +7,7 @@ import (
 	"math/rand"
 	"os"
 	"runtime"
+	"sort"
 	"sync"
 	"time"
 
@@ -194,27 +195,37 @@ func c16hist(c *Ctx) {
 	maxLen := c.N(5, 6)
 	rng := c.Rng(0)
 	// fixture: one segment with a vector field, persisted once
+	// the fixture has two vector fields that are neighbours in the field table (the
+	// histories run on the higher one, some traffic goes to the lower one)
 	var b *model.Batch
-	for {
+	var field, neighbour string
+	for try := 0; ; try++ {
 		b = model.Gen(rng, "small", model.GenOpts{Vec: true, NoBig: true, Docs: 7})
 		m := model.Build(b)
-		ok := false
-		for _, vm := range m.Vec {
-			if len(vm.Entries) >= 5 {
-				ok = true
+		field, neighbour = "", ""
+		fs := append([]string{}, m.Fields...)
+		sort.Strings(fs)
+		for k := 1; k < len(fs); k++ {
+			if lo, hi := m.Vec[fs[k-1]], m.Vec[fs[k]]; lo != nil && hi != nil && len(hi.Entries) >= 5 && len(lo.Entries) >= 1 {
+				field, neighbour = fs[k], fs[k-1]
 			}
 		}
-		if ok {
+		if field != "" {
 			break
+		}
+		if try > 2000 {
+			// no such batch drawn: fall back to the field with most vectors, no neighbour traffic
+			for f, vm := range m.Vec {
+				if len(vm.Entries) >= 5 && (field == "" || len(vm.Entries) > len(m.Vec[field].Entries)) {
+					field = f
+				}
+			}
+			if field != "" {
+				break
+			}
 		}
 	}
 	m := model.Build(b)
-	var field string
-	for f, vm := range m.Vec {
-		if field == "" || len(vm.Entries) > len(m.Vec[field].Entries) {
-			field = f
-		}
-	}
 	vm := m.Vec[field]
 	if !c.Case("fixture", map[string]interface{}{"docs": len(b.Docs), "field": field, "vectors": len(vm.Entries), "max_events": maxLen}) {
 		return
@@ -291,7 +302,7 @@ func c16hist(c *Ctx) {
 						return
 					}
 					defer c.End()
-					c16run(c, id, path, field, vm, m, sets, pair, seq, vq, vqf, filt)
+					c16run(c, id, path, field, neighbour, vm, m, sets, pair, seq, vq, vqf, filt)
 					c.R.Inc("c16_histories", 1)
 					c.DistinctN(1)
 					if idx%3000 == 1 {
@@ -362,7 +373,7 @@ func c16hist(c *Ctx) {
 	}
 }
 
-func c16run(c *Ctx, id, path, field string, vm *model.VecModel, m *model.Seg, sets []map[uint32]bool, pair [2]int, seq []int, vq, vqf vecQuery, filt [2]bool) {
+func c16run(c *Ctx, id, path, field, neighbour string, vm *model.VecModel, m *model.Seg, sets []map[uint32]bool, pair [2]int, seq []int, vq, vqf vecQuery, filt [2]bool) {
 	r := c.R
 	guard(r, id, func() {
 		seg, err := zx.Open(path)
@@ -410,6 +421,16 @@ func c16run(c *Ctx, id, path, field string, vm *model.VecModel, m *model.Seg, se
 				hs[e-4].idx.Close()
 				hs[e-4] = nil
 			case 6:
+				if neighbour != "" {
+					// traffic on the neighbouring vector field: opened, searched and closed
+					// while the handles of this history stay as they are
+					nvm := m.Vec[neighbour]
+					nq := vecQuery{q: append([]float32(nil), nvm.Entries[0].Vec...), k: int64(len(nvm.Entries))}
+					if got, ok := searchOnce(r, tag+" (neighbour field)", vs, neighbour, nil, nq); ok {
+						checkVecResult(r, tag+" (neighbour field)", nvm, nil, nq, got, true)
+					}
+					r.Inc("c16_neighbour_field_uses", 1)
+				}
 				before := zap.VerifVecCacheLen(seg)
 				_, closedBefore := faiss.MonitorIndexCounts()
 				for p := 0; p < 4; p++ {
